@@ -129,6 +129,11 @@ func (rec *Record) TryCompress() {
 	if rec.Size() <= 256 {
 		return
 	}
+	if len(rec.Payload.Body) == 0 {
+		// a long key alone can push the record over one block; there is nothing to compress
+		// (and the C compressor takes the address of the first byte)
+		return
+	}
 	body := rec.Payload.Body
 	try := body
 	if len(body) > TRY_COMPRESS_SIZE {
